@@ -22,7 +22,7 @@ define_language! {
         Add(AppliedId, AppliedId) = "add",
         Mul(AppliedId, AppliedId) = "mul",
         Sum(Bind<AppliedId>) = "sum",
-        Tag(u32, AppliedId) = "tag",
+        Tag(Slot, AppliedId) = "tag",
         Num(u32),
         Flag(bool),
         Sym(Symbol),
@@ -34,11 +34,11 @@ pub fn slot_sx(s: Slot) -> Sx {
     let t = s.to_string();
     let t = &t[1..];
     if let Ok(n) = t.parse::<u64>() {
-        if t == n.to_string() { return num(n); }
+        if t == n.to_string() && n < (1 << 30) { return num(n); }
     }
     if let Some(r) = t.strip_prefix('f') {
         if let Ok(n) = r.parse::<u64>() {
-            if r == n.to_string() { return lst(vec![sym("f"), num(n)]); }
+            if r == n.to_string() && n < (1 << 30) - 1 { return lst(vec![sym("f"), num(n)]); }
         }
     }
     lst(vec![sym("s"), crate::c17::text_sx(t)])
@@ -93,7 +93,7 @@ pub fn dec_node(e: &Sx) -> LV {
         13 => LV::Add(dec_appid(&a[0]), dec_appid(&a[1])),
         14 => LV::Mul(dec_appid(&a[0]), dec_appid(&a[1])),
         15 => LV::Sum(bind1(&a[0])),
-        16 => LV::Tag(a[0].as_lst()[1].as_num() as u32, dec_appid(&a[1])),
+        16 => LV::Tag(sl(&a[0]), dec_appid(&a[1])),
         17 => LV::Num(a[0].as_lst()[1].as_num() as u32),
         18 => LV::Flag(a[0].as_lst()[1].as_sym() == "true"),
         19 => LV::Sym(Symbol::from(crate::c17::dec_text(&a[0].as_lst()[1]))),
@@ -123,7 +123,7 @@ pub fn node_sx(n: &LV) -> Sx {
         LV::Add(a, b) => (13, vec![appid_sx(a), appid_sx(b)]),
         LV::Mul(a, b) => (14, vec![appid_sx(a), appid_sx(b)]),
         LV::Sum(a) => (15, vec![b1(a)]),
-        LV::Tag(p, a) => (16, vec![lst(vec![sym("pu"), num(*p as u64)]), appid_sx(a)]),
+        LV::Tag(p, a) => (16, vec![s_(p), appid_sx(a)]),
         LV::Num(p) => (17, vec![lst(vec![sym("pu"), num(*p as u64)])]),
         LV::Flag(p) => (18, vec![lst(vec![sym("pb"), sbool(*p)])]),
         LV::Sym(p) => (19, vec![lst(vec![sym("ps"), crate::c17::text_sx(&p.to_string())])]),
@@ -137,7 +137,7 @@ pub fn node_sx(n: &LV) -> Sx {
 pub const VARIANTS: &[(&str, &str)] = &[
     ("f", "ss"), ("g", "sss"), ("g4", "ssss"), ("c", ""), ("d", ""), ("var", "s"), ("u", "a"), ("h", "aa"),
     ("lam", "b"), ("app", "aa"), ("let", "ba"), ("sum2", "aB"), ("k", "sbs"), ("add", "aa"), ("mul", "aa"),
-    ("sum", "b"), ("tag", "ua"), ("", "u"), ("", "o"), ("", "y"),
+    ("sum", "b"), ("tag", "sa"), ("", "u"), ("", "o"), ("", "y"),
 ];
 
 pub fn selem_sx(e: &SyntaxElem) -> Sx {
